@@ -52,34 +52,34 @@ Theorem C23_run_clause : forall l c', existsb (fun x => extends_b x c') l = true
 Proof. exact clause_expect_true_model. Qed.
 Print Assumptions C23_run_clause.
 
-(* PARTIAL transitivity: compound selectors whose pseudos carry no selector argument ... *)
-Theorem C23_trans_compound_partial : forall a b c,
-  simple_comp a = true -> sup_comp a b = true -> sup_comp b c = true -> sup_comp a c = true.
-Proof. exact sup_comp_trans_simple. Qed.
-Print Assumptions C23_trans_compound_partial.
+(* the model defines a.is_superselector(b) twice, recursive in a (the sup_ functions) and recursive in b (the sub_ functions), because
+   `:not` swaps the arguments; the two definitions agree on ALL selectors *)
+Theorem C23_directions_agree : forall a b, sub_sel a b = sup_sel b a.
+Proof. exact sub_is_sup_swapped. Qed.
+Print Assumptions C23_directions_agree.
 
-(* ... lists inherit transitivity from their members ... *)
-Theorem C23_trans_list_lift : forall la lb lc,
-  (forall x y z, In x la -> In y lb -> In z lc -> sup_sel x y = true -> sup_sel y z = true -> sup_sel x z = true) ->
-  sup_sels la lb = true -> sup_sels lb lc = true -> sup_sels la lc = true.
-Proof. exact sup_sels_trans_lift. Qed.
-Print Assumptions C23_trans_list_lift.
+(* transitivity for ALL complex selectors (combinators, selector pseudos, :not reversal, pseudo-elements,
+   namespaces): induction on the total size of the three selectors; the ancestor / sibling walks are replayed
+   along the chain of the middle selector (anc_follow, sib_follow) *)
+Theorem C23_trans : forall a b c, sup_sel a b = true -> sup_sel b c = true -> sup_sel a c = true.
+Proof. exact sup_sel_trans. Qed.
+Print Assumptions C23_trans.
 
-(* ... hence lists of combinator-free selectors without selector pseudos are transitive.
-   NOT proved: transitivity for complex selectors with combinators / selector pseudos (tested only:
-   no counterexample among 27491 generated chains with both premises true) *)
-Theorem C23_trans_flat_lists_partial : forall la lb lc,
-  forallb flat_simple la = true -> forallb flat_simple lb = true ->
-  sup_sels la lb = true -> sup_sels lb lc = true -> sup_sels la lc = true.
-Proof. exact sup_sels_trans_flat. Qed.
-Print Assumptions C23_trans_flat_lists_partial.
+Theorem C23_trans_compound : forall a b c, sup_comp a b = true -> sup_comp b c = true -> sup_comp a c = true.
+Proof. exact sup_comp_trans. Qed.
+Print Assumptions C23_trans_compound.
+
+(* ... and for selector lists: is-superselector is a preorder *)
+Theorem C23_trans_list : forall la lb lc, sup_sels la lb = true -> sup_sels lb lc = true -> sup_sels la lc = true.
+Proof. exact sup_sels_trans. Qed.
+Print Assumptions C23_trans_list.
 
 Example C23_hyps_sat :
   let a := Sel None (Comp (mkBase false (Some (str "a")) [] [] None []) []) in
   let b := Sel (Some (Parent, Sel None (Comp (mkBase false (Some (str "x")) [] [] None []) [])))
                (Comp (mkBase false (Some (str "a")) [] [str "c"] None []) []) in
-  extends a b /\ extends_b a b = true /\ flat_simple a = true.
+  extends a b /\ extends_b a b = true.
 Proof.
-  cbv zeta. split; [|split; vm_compute; reflexivity].
+  cbv zeta. split; [|vm_compute; reflexivity].
   apply extends_b_sound. vm_compute. reflexivity.
 Qed.
